@@ -1105,13 +1105,18 @@ class CSSMatch(_DocumentNav):
         """Match element if it contains text."""
 
         match = True
-        content = None  # type: str | Sequence[str] | None
+        text_content = None  # type: str | None
+        own_content = None  # type: Sequence[str] | None
         for contain_list in contains:
-            if content is None:
-                if contain_list.own:
-                    content = self.get_own_text(el, no_iframe=self.is_html)
-                else:
-                    content = self.get_text(el, no_iframe=self.is_html)
+            content = None  # type: str | Sequence[str] | None
+            if contain_list.own:
+                if own_content is None:
+                    own_content = self.get_own_text(el, no_iframe=self.is_html)
+                content = own_content
+            else:
+                if text_content is None:
+                    text_content = self.get_text(el, no_iframe=self.is_html)
+                content = text_content
             found = False
             for text in contain_list.text:
                 if contain_list.own:
